@@ -500,6 +500,192 @@ def gen_shear(rng, it):
     return _case(v, origin, pos, pbc, cutoff, 'grid' if grid else 'float', rng.randint(1, 25), rng.randint(1, 25))
 
 
+# ----------------------------------------------------------------------------------------
+# pairs within a hair of the cutoff
+# ----------------------------------------------------------------------------------------
+def _adj3(V):
+    """adjugate and determinant of an integer 3x3 matrix (rows = cell vectors): V^-1 = adj / det."""
+    (a, b, c), (d, e, f), (g, h, i) = V
+    adj = [[e * i - f * h, c * h - b * i, b * f - c * e],
+           [f * g - d * i, a * i - c * g, c * d - a * f],
+           [d * h - e * g, b * g - a * h, a * e - b * d]]
+    det = a * (e * i - f * h) - b * (d * i - f * g) + c * (d * h - e * g)
+    return adj, det
+
+
+def _reduce_into_cell(p, o, V, pbc):
+    """integer point p moved by a lattice vector into the cell (relative coordinates in [0, 1), exact integer /
+    Fraction arithmetic); None when that needs a shift along a non-periodic direction."""
+    adj, det = _adj3(V)
+    q = [p[k] - o[k] for k in range(3)]
+    n = []
+    for i in range(3):
+        rel = Fraction(sum(q[j] * adj[j][i] for j in range(3)), det)
+        ni = math.floor(rel)
+        if not pbc[i]:
+            if rel == 1:
+                ni = 0
+            if ni != 0:
+                return None
+        n.append(ni)
+    return [p[k] - sum(n[i] * V[i][k] for i in range(3)) for k in range(3)]
+
+
+def _four_square_cutoff(rng):
+    """(C, (a, b, c)) with a^2 + b^2 + c^2 = C^2 exactly (Euler's four-square identity), C odd in [2^24, 2^25)."""
+    while True:
+        m, n, p = (rng.randrange(0, 3300) for _ in range(3))
+        s3 = m * m + n * n + p * p
+        lo, hi = max(0, 2 ** 24 - s3), 2 ** 25 - 1 - s3
+        if hi < 0:
+            continue
+        ql, qh = math.isqrt(lo) + 1, math.isqrt(hi)
+        if ql > qh:
+            continue
+        q = rng.randrange(ql, qh + 1)
+        C = s3 + q * q
+        if C % 2 == 0 or not (2 ** 24 <= C < 2 ** 25):
+            continue
+        abc = (m * m + n * n - p * p - q * q, 2 * (m * q + n * p), 2 * (n * q - m * p))
+        assert abc[0] ** 2 + abc[1] ** 2 + abc[2] ** 2 == C * C
+        return C, abc
+
+
+def gen_fine(rng, it):
+    """Exact regime for cutoffs that single precision cannot hold.  Everything (cell, origin, positions, cutoff) is an
+    integer multiple of unit = 2^-(24-e); the cutoff is C * unit with C ODD in [2^24, 2^25): 25 significant bits, exact
+    in double, half-way between two single-precision numbers.  Double evaluation of the distance test is exact here:
+    a candidate separation with all |d_j| < 2^(e+1) has squares that are multiples of unit^2 below 2^(2e+2), their sum
+    needs at most 52 bits; a candidate with some |d_j| >= 2^(e+1) is >= 2^(2e+2) > cutoff^2 exactly and (rounding is
+    monotone, 2^(2e+2) is representable) also as computed; cutoff*cutoff has 50 bits.  So ties and pairs ONE unit
+    (2^-25 .. 2^-22 relative) on either side of the cutoff are decided exactly by the oracle and must be decided the
+    same way by the implementation.  Designed pairs: along an axis at C + k units; exact ties in general directions
+    (four-square identity) and one unit off them; general directions with |D|^2 within 2|D_z| units^2 of C^2; through
+    periodic images; orthogonal / tilted / permuted left-handed cells, all pbc settings, cutoff 0.33-1.6 cell edges."""
+    np = _np()
+    e = rng.choice([-1, 0, 1, 2])
+    g = 24 - e
+    tie_vec = None
+    if rng.random() < 0.4:
+        C, tie_vec = _four_square_cutoff(rng)
+    else:
+        C = rng.randrange(2 ** 24, 2 ** 25) | 1
+    L = [rng.randrange(int(0.62 * C), int(3.0 * C)) for _ in range(3)]
+    V = [[L[0], 0, 0], [0, L[1], 0], [0, 0, L[2]]]
+    if it % 3:
+        V[1][0] = rng.randrange(-L[0] // 2, L[0] // 2 + 1)
+        V[2][0] = rng.randrange(-L[0] // 2, L[0] // 2 + 1)
+        V[2][1] = rng.randrange(-L[1] // 2, L[1] // 2 + 1)
+    if it % 3 == 2:
+        perm = rng.sample(range(3), 3)
+        V = [V[k] for k in perm]
+        if rng.random() < 0.6:
+            r = rng.randrange(3)
+            V[r] = [-x for x in V[r]]
+        if rng.random() < 0.5:      # axes permuted as well: a cell that is not lower triangular in any row order
+            cp = rng.sample(range(3), 3)
+            V = [[row[k] for k in cp] for row in V]
+    o = [rng.randrange(-2 * C, 2 * C) for _ in range(3)]
+    pbc = list(ALL_PBC[(it // 3) % 8]) if it % 4 == 0 else [True, True, True]
+
+    def inside_point():
+        rel = [rng.choice([rng.random(), rng.random(), rng.random(), 0.0]) for _ in range(3)]
+        p = [o[k] + int(sum(rel[i] * V[i][k] for i in range(3))) for k in range(3)]
+        return _reduce_into_cell(p, o, V, [True, True, True])
+
+    def offset():
+        kind = rng.choice(['axis', 'near', 'near', 'tie'] if tie_vec else ['axis', 'near', 'near'])
+        if kind == 'axis':
+            D = [0, 0, 0]
+            D[rng.randrange(3)] = (C + rng.choice([0, 0, -1, 1, -1, 1, -2, 2, 3, -5])) * rng.choice([1, -1])
+            return D
+        if kind == 'tie':
+            D = [x * rng.choice([1, -1]) for x in tie_vec]
+            rng.shuffle(D)
+            if rng.random() < 0.6:
+                D[rng.randrange(3)] += rng.choice([1, -1])
+            return D
+        while True:
+            d = [rng.gauss(0, 1) for _ in range(3)]
+            nrm = math.sqrt(sum(x * x for x in d))
+            a, b = int(C * d[0] / nrm), int(C * d[1] / nrm)
+            rem = C * C - a * a - b * b
+            if rem > 0:
+                D = [a, b, (math.isqrt(rem) + rng.choice([0, 1])) * rng.choice([1, -1])]
+                rng.shuffle(D)
+                return D
+
+    pts = []
+    for _ in range(rng.choice([1, 1, 2, 3])):
+        for _try in range(20):
+            u = inside_point()
+            D = offset()
+            w = _reduce_into_cell([u[k] + D[k] for k in range(3)], o, V, pbc)
+            if w is not None:
+                pair = [u, w]
+                rng.shuffle(pair)
+                pts.extend(pair)
+                break
+    for _ in range(rng.choice([0, 0, 1, 2, 4])):
+        pts.insert(rng.randint(0, len(pts)), inside_point())
+    if not pts:
+        pts = [inside_point()]
+    sc = lambda x: math.ldexp(x, -g)  # noqa  (exact)
+    case = _case([[sc(x) for x in row] for row in V], [sc(x) for x in o], [[sc(x) for x in p] for p in pts], pbc,
+                 sc(C), 'grid', rng.randint(1, 4), rng.randint(1, 3))
+    case['fine'] = True
+    return case
+
+
+def gen_nearcut(rng, it):
+    """Float regime, arbitrary doubles: general (tilted, rotated, left-handed, sheared) cells, random cutoff; designed
+    pairs at |d|^2 = cutoff^2 (1 + s k band) with `band` the derived `rounding_band` of the case, k from 4 to 1e6 and
+    s = +-1 — i.e. 1e-13 .. 1e-8 relative, far inside what a single-precision cutoff / cutoff^2, a tolerance or a
+    rounded comparison would blur, outside what double rounding can — directly and through periodic images."""
+    np = _np()
+    if it % 4 == 3:
+        base = gen_shear(rng, 4 * rng.randrange(50) + rng.choice([0, 1, 2]))
+        v = np.array(base['vects'])
+        origin = base['origin']
+        pbc = base['pbc']
+        cutoff = base['cutoff']
+    else:
+        kind = ('orth', 'tilt', 'gen')[it % 3]
+        v = _rand_cell(rng, kind)
+        origin = [rng.uniform(-5, 5) for _ in range(3)]
+        pbc = ALL_PBC[(it // 3) % 8] if it % 2 else (True, True, True)
+        cutoff = rng.choice([rng.uniform(0.2, 0.5), rng.uniform(0.5, 1.0), rng.uniform(1.0, 1.4)]) * min(_widths(v))
+    o = np.array(origin)
+    inv = np.linalg.inv(v)
+    proto = _case(v, origin, [[abs(x) for x in (o + np.abs(v).sum(axis=0)).tolist()]], pbc, cutoff, 'float')
+    band = float(rounding_band(proto))
+    pts = []
+    for _ in range(rng.choice([1, 2, 2, 3])):
+        u = np.array([rng.random() for _ in range(3)]) @ v + o
+        d = np.array([rng.gauss(0, 1) for _ in range(3)])
+        if rng.random() < 0.25:
+            d = np.eye(3)[rng.randrange(3)] * rng.choice([1.0, -1.0])
+        d /= np.linalg.norm(d)
+        k = rng.choice([4.0, 16.0, 100.0, 1e3, 1e4, 1e5, 1e6])
+        delta = min(k * band, 3e-8) * rng.choice([1.0, -1.0])
+        w = u + d * (cutoff * math.sqrt(1.0 + delta))
+        rel = (w - o) @ inv
+        n = np.floor(rel)
+        n = np.where(np.array(pbc), n, 0.0)
+        w = w - n @ v
+        relw = (w - o) @ inv
+        if ((relw < 0.0) | (relw > 1.0)).any():
+            continue            # would leave the cell along a non-periodic direction
+        pair = [u.tolist(), w.tolist()]
+        rng.shuffle(pair)
+        pts.extend(pair)
+    for _ in range(rng.choice([0, 1, 3, 6])):
+        pts.insert(rng.randint(0, len(pts)), (np.array([rng.random() for _ in range(3)]) @ v + o).tolist())
+    if not pts:
+        pts = [(np.array([0.5, 0.5, 0.5]) @ v + o).tolist()]
+    return _case(v, origin, pts, pbc, cutoff, 'float', rng.randint(1, 6), rng.randint(1, 4))
+
+
 def load_corpus():
     out = []
     if CORPUS.is_dir():
@@ -527,7 +713,14 @@ def _system(case):
         assert (conv.astype(float) == pos).all()
         pos = conv
     atoms = am.Atoms(pos=pos)
-    return am.System(atoms=atoms, box=box, pbc=tuple(case['pbc']))
+    system = am.System(atoms=atoms, box=box, pbc=tuple(case['pbc']))
+    # the implementation works on what the objects hold (Box zeroes terms below 1e-9 of its largest one): model and
+    # oracle are given exactly that state
+    vb = np.array(system.box.vects, dtype=float).tolist()
+    ob = [float(x) for x in system.box.origin]
+    if vb != case['vects'] or ob != case['origin']:
+        case['vects'], case['origin'] = vb, ob
+    return system
 
 
 def _build(case, system, init=None, delta=None, via=0):
@@ -551,10 +744,51 @@ def _line(case, init, delta, op='nlist'):
     n = len(case['pos'])
     head = f"{op} {int(case['pbc'][0])} {int(case['pbc'][1])} {int(case['pbc'][2])} {cm.fr(case['cutoff'])}"
     if op == 'nlist':
-        head += f' {init} {delta} {TOL}'
+        head += f' {init} {delta} {_tol_str(case)}'
     flat = [x for p in case['pos'] for x in p]
     return (head + ' ' + cm.frs(np.array(case['vects'])) + ' ' + cm.frs(case['origin']) + f' {n}'
             + ((' ' + cm.frs(flat)) if flat else ''))
+
+
+def rounding_band(case):
+    """Relative half-width (a Fraction) of the band around cutoff^2 inside which the IEEE-double evaluation of
+    `dmag2 < cutoff*cutoff` in nlist.pyx / dmag.pyx may differ from the exact comparison.  Derived, not tuned
+    (u = 2^-53, standard model fl(a op b) = (a op b)(1 + e), |e| <= u; an fma contraction only removes roundings):
+      * each component  d_j = ((p1_j - p0_j) + x b0_j) + y b1_j) + z b2_j  (x, y, z in {-1, 0, 1}: the products are
+        exact) takes at most 4 roundings of partial sums bounded by S_j = |p1_j| + |p0_j| + |b0_j| + |b1_j| + |b2_j|,
+        so |fl(d_j) - d_j| <= 4 u S_j (1 + u)^3; with S = max_j S_j the vector error is |dd| <= sqrt(3) 4 u S (1+u)^3;
+      * mag2 = (d0 d0 + d1 d1) + d2 d2: every term goes through at most 3 roundings, relative error (1+u)^3 - 1;
+      * cutoff2 = cutoff * cutoff: one rounding.
+    Hence for a pair with |d| about the cutoff c:
+      |fl(mag2) - |d|^2| / c^2  <=  2 |dd| / c + 3u + (second order)  <=  u (13.9 S / c + 3) (1 + 1e-15),
+    and with the rounding of cutoff2 the comparison is decided as in exact arithmetic whenever
+      | |d|^2 - c^2 |  >  u (16 S / c + 8) c^2      (16 > 13.9 and 8 > 4 leave room for the second-order terms).
+    The same quantity bounds (relative to the bin width c) the error of a float bin edge lo + k c."""
+    np = _np()
+    P = np.abs(np.array(case['pos'], dtype=float).reshape(-1, 3)).max(axis=0) if len(case['pos']) else np.zeros(3)
+    B = np.abs(np.array(case['vects'], dtype=float)).sum(axis=0)
+    S = float((2 * P + B).max())
+    ratio = Fraction(S) / Fraction(case['cutoff'])
+    return (16 * ratio + 8) / 2 ** 53
+
+
+def _tol(case):
+    """tie band as a fraction of cutoff^2: exact zero on the dyadic grids (decided exactly there), the derived
+    rounding band elsewhere; 1e-9 for the `outside` systems (their result depends on the float binning)."""
+    if case.get('regime') == 'outside':
+        return Fraction(TOL)
+    if case.get('regime') == 'grid':
+        return Fraction(0)
+    return rounding_band(case)
+
+
+def _tol_str(case):
+    t = _tol(case)
+    if t == 0:
+        return TOL          # the model only *flags* near-cutoff pairs; on the grids the flag is ignored
+    # round up to a short rational (the wire form need not carry 60-digit numerators)
+    k = 2 ** 70
+    return f'{-((-t.numerator * k) // t.denominator)}/{k}'
 
 
 def _parse_rows(nums, n):
@@ -604,15 +838,16 @@ def _shifts(case, v):
 
 
 def exact_classes(case):
-    """dict (i,j), i<j -> 'in' | 'out' | 'tie'; 'tie': exact |d2 - c2| <= 1e-9 c2 (exempt unless on the grid,
-    where it is resolved exactly)."""
+    """dict (i,j), i<j -> 'in' | 'out' | 'tie'; 'tie': exact |d2 - c2| <= band * c2 with the derived
+    `rounding_band` (exempt; on the dyadic grids there is no band: every comparison is resolved exactly)."""
     np = _np()
     n = len(case['pos'])
     v, pos, c, D = _scaled_ints(case)
     sh = _shifts(case, v)
     c2 = c * c
-    band = c2 // 10 ** 9
     grid = case['regime'] == 'grid'
+    t = _tol(case)
+    band = 0 if grid else -((-c2 * t.numerator) // t.denominator)
     out = {}
 
     def exact(i, j):
@@ -995,7 +1230,7 @@ def canary(ctx):
         return ctx.extra['_canary']
     rng = random.Random(ctx.seed * 104729 + 11)
     cases = [c for _, c in load_corpus()]
-    for gen in (gen_general, gen_grid, gen_edges, gen_hunt, gen_shear, gen_dense, gen_seq_start):
+    for gen in (gen_general, gen_grid, gen_edges, gen_hunt, gen_shear, gen_dense, gen_seq_start, gen_fine, gen_nearcut):
         cases += [gen(rng, it) for it in range(12 if gen is gen_dense else 40)]
     res = _run_forked(cases)
     ctx.extra['_canary'] = res is not None
@@ -1068,10 +1303,14 @@ def _roundtrip(ctx, case, nl, rows, tmpdir, tag, it=0):
 def _correspond_case(ctx, case, name, tmpdir, roundtrip):
     n = len(case['pos'])
     init, delta = case['init'] or 20, case['delta'] or 10
-    out = ctx.driver.ask(_line(case, init, delta))
     via = (n + init) % 2
     try:
         system = _system(case)
+    except Exception as e:  # noqa
+        ctx.violate('raises', f'System construction raised {type(e).__name__}: {e}', _payload(case))
+        return
+    out = ctx.driver.ask(_line(case, init, delta))
+    try:
         nl = _build(case, system, init, delta, via)
         rows = _rows(nl)
         coord = [int(c) for c in nl.coord]
@@ -1128,7 +1367,7 @@ def correspond(ctx):
             _correspond_case(ctx, case, 'corpus:' + name, tmpdir, True)
         plan = [(gen_general, ctx.n(120, 4000)), (gen_grid, ctx.n(120, 3000)), (gen_edges, ctx.n(50, 1000)),
                 (gen_hunt, ctx.n(150, 4000)), (gen_outside, ctx.n(80, 2000)), (gen_shear, ctx.n(120, 3000)),
-                (gen_dense, ctx.n(15, 200))]
+                (gen_dense, ctx.n(15, 200)), (gen_fine, ctx.n(120, 3000)), (gen_nearcut, ctx.n(100, 3000))]
         import time
         ph = ctx.extra.setdefault('phase_seconds', {})
         for gen, count in plan:
@@ -1499,6 +1738,167 @@ def run_sequence(ctx, rng, it, mode, tmpdir, script=None):
 
 
 # ----------------------------------------------------------------------------------------
+# scale: more than 100 000 atoms (six-digit indices in the file; a whole lattice through nlist)
+# ----------------------------------------------------------------------------------------
+def gen_large_rows(rng):
+    """sparse neighbor lists for n > 100 000 atoms: {atom: ascending neighbors}, symmetric, most atoms isolated;
+    indices of 1 to 6 digits, several of them >= 100000 and adjacent in one list."""
+    n = 100001 + rng.randint(0, 3000)
+    pool = sorted(set([0, 9, 10, 99, 100, 999, 1000, 9999, 10000, 99998, 99999, 100000, n - 1, n - 2]
+                      + [rng.randrange(n) for _ in range(12)] + [rng.randrange(100000, n) for _ in range(6)]))
+    rows = {}
+    for _ in range(rng.randint(8, 30)):
+        i, j = rng.sample(pool, 2)
+        rows.setdefault(i, set()).add(j)
+        rows.setdefault(j, set()).add(i)
+    hub = n - 1 - rng.randint(0, 1)
+    for j in rng.sample(pool, 6) + [100000, 99999]:
+        if j != hub:
+            rows.setdefault(hub, set()).add(j)
+            rows.setdefault(j, set()).add(hub)
+    return n, {i: sorted(r) for i, r in rows.items()}
+
+
+def _nl_equal(a, b):
+    """two NeighborList objects hold the same coordination numbers and lists (vectorised)."""
+    np = _np()
+    ca, cb = np.asarray(a.coord), np.asarray(b.coord)
+    if ca.shape != cb.shape or (ca != cb).any():
+        bad = int(np.nonzero(ca != cb)[0][0]) if ca.shape == cb.shape else -1
+        return False, bad
+    A, B = np.asarray(a.nlist)[:, 1:], np.asarray(b.nlist)[:, 1:]
+    w = int(ca.max()) if len(ca) else 0
+    if A.shape[1] < w or B.shape[1] < w:
+        return False, -1
+    mask = np.arange(w)[None, :] < ca[:, None]
+    diff = (np.where(mask, A[:, :w], 0) != np.where(mask, B[:, :w], 0)).any(axis=1)
+    if diff.any():
+        return False, int(np.nonzero(diff)[0][0])
+    return True, None
+
+
+def check_large_rows(ctx, n, rows, tmpdir):
+    """file clause at scale without a large system: the lists are loaded from a text in the documented format (atom
+    index, then its neighbors, separated by one blank), dumped, and read back."""
+    import atomman as am
+    rows = {int(i): [int(j) for j in r] for i, r in rows.items()}
+    payload = {'op': 'large', 'n': n, 'rows': {str(i): r for i, r in rows.items()}}
+    text = ('# Neighbor list:\n# The first column gives an atom index.\n'
+            '# The rest of the columns are the indexes of the identified neighbors.\n'
+            + ''.join(' '.join(map(str, [i] + rows.get(i, []))) + '\n' for i in range(n)))
+    ctx.stats.case('oracle:large-file', (n, json.dumps(payload['rows'], sort_keys=True)), nontrivial=True,
+                   sample={'natoms': n, 'atoms_with_neighbors': len(rows), 'largest_index': max(max(r) for r in rows.values())})
+    show = {i: rows[i] for i in sorted(rows)[-3:]}
+    try:
+        nl0 = am.NeighborList(model=text)
+        got0 = {i: [int(j) for j in nl0[i]] for i in rows}
+        ok0 = len(nl0) == n and got0 == rows and int(nl0.coord.sum()) == sum(len(r) for r in rows.values())
+    except Exception as e:  # noqa
+        ctx.violate('load-large', f'NeighborList(model=<text for {n} atoms>) raised {type(e).__name__}: {e}', payload)
+        return
+    if not ok0:
+        ctx.violate('load-large', f'NeighborList(model=<text for {n} atoms>) holds other lists than the text: e.g. '
+                    f'{ {i: got0[i] for i in show} } for {show}', payload)
+        return
+    path = os.path.join(tmpdir, 'large.txt')
+    try:
+        nl0.dump(path)
+        nl1 = am.NeighborList(model=path)
+        same, where = _nl_equal(nl0, nl1) if len(nl1) == n else (False, -1)
+        got1 = {i: [int(j) for j in nl1[i]] for i in show} if len(nl1) == n else {}
+    except Exception as e:  # noqa
+        ctx.violate('roundtrip-raises', f'a neighbor list for {n} atoms (lists of the last atoms with neighbors: {show}) '
+                    f'cannot be read back from its own dump: {type(e).__name__}: {e}', payload)
+        return
+    if not same:
+        w = where if where is not None and where >= 0 else max(rows)
+        ctx.violate('roundtrip', f'a neighbor list for {n} atoms read back from its own dump differs: atom {w} had '
+                    f'{[int(j) for j in nl0[w]]}, read back {len(nl1)} atoms, atom {w}: '
+                    f'{[int(j) for j in nl1[w]] if w < len(nl1) else None}; {got1} for {show}', payload)
+
+
+def check_lattice(ctx, m, pbc, init, delta, tmpdir):
+    """a whole simple-cubic lattice of m^3 > 100 000 atoms (spacing 1, cutoff 1.25: the 6 nearest neighbors, decided
+    exactly) through nlist; independent closed-form oracle (index arithmetic); then dump -> load."""
+    np = _np()
+    import atomman as am
+    payload = {'op': 'lattice', 'm': m, 'pbc': list(pbc), 'init': init, 'delta': delta}
+    g = np.arange(m)
+    abc = np.array(np.meshgrid(g, g, g, indexing='ij')).reshape(3, -1).T
+    origin = np.array([-3.0, 0.5, 2.0])
+    n = m ** 3
+    ctx.stats.case('oracle:lattice', json.dumps(payload, sort_keys=True), nontrivial=True,
+                   sample={'natoms': n, 'pbc': list(pbc), 'cutoff': 1.25, 'initialsize': init, 'deltasize': delta})
+    try:
+        system = am.System(atoms=am.Atoms(pos=abc.astype(float) + origin),
+                           box=am.Box(vects=np.eye(3) * m, origin=origin), pbc=tuple(pbc))
+        nl = am.NeighborList(system=system, cutoff=1.25, initialsize=init, deltasize=delta)
+        coord = np.asarray(nl.coord)
+        nbr = np.asarray(nl.nlist)[:, 1:]
+    except Exception as e:  # noqa
+        ctx.violate('raises', f'neighbor list of a {m}^3 simple-cubic lattice raised {type(e).__name__}: {e}', payload)
+        return
+    # expected: +-1 along each axis, through the face when that axis is periodic
+    big = np.iinfo(np.int64).max
+    exp = []
+    for ax in range(3):
+        for sgn in (1, -1):
+            t = abc.copy()
+            t[:, ax] += sgn
+            ok = ((t[:, ax] >= 0) & (t[:, ax] < m)) | bool(pbc[ax])
+            t[:, ax] %= m
+            exp.append(np.where(ok, (t[:, 0] * m + t[:, 1]) * m + t[:, 2], big))
+    exp = np.sort(np.array(exp).T, axis=1)                       # ascending, padding last
+    ecoord = (exp != big).sum(axis=1)
+    exp = np.where(exp == big, -1, exp)
+    desc = f'{m}^3 simple-cubic lattice (spacing 1, cutoff 1.25, pbc {list(pbc)}, initialsize {init}, deltasize {delta})'
+    if coord.shape != (n,) or (coord != ecoord).any():
+        i = int(np.nonzero(coord != ecoord)[0][0]) if coord.shape == (n,) else 0
+        ctx.violate('missing' if coord.shape == (n,) and coord[i] < ecoord[i] else 'spurious',
+                    f'{desc}: atom {i} at {abc[i].tolist()} has coordination '
+                    f'{int(coord[i]) if coord.shape == (n,) else None}, expected {int(ecoord[i])}', payload)
+        return
+    if nbr.shape[1] < 6:
+        nbr = np.hstack([nbr, np.full((n, 6 - nbr.shape[1]), -1, dtype=nbr.dtype)])
+    got = np.where(np.arange(6)[None, :] < coord[:, None], nbr[:, :6], -1)
+    bad = (got != exp).any(axis=1)
+    if bad.any():
+        i = int(np.nonzero(bad)[0][0])
+        ctx.violate('missing', f'{desc}: list of atom {i} is {[int(j) for j in nl[i]]}, expected '
+                    f'{[int(j) for j in exp[i] if j >= 0]}', payload)
+        return
+    path = os.path.join(tmpdir, 'lattice.txt')
+    try:
+        nl.dump(path)
+        back = am.NeighborList(model=path)
+        same, where = _nl_equal(nl, back) if len(back) == n else (False, -1)
+    except Exception as e:  # noqa
+        ctx.violate('roundtrip-raises', f'the neighbor list of the {n} atoms of a {desc} cannot be read back from its '
+                    f'own dump: {type(e).__name__}: {e}', payload)
+        return
+    if not same:
+        i = where if where is not None and where >= 0 else n - 1
+        ctx.violate('roundtrip', f'the neighbor list of a {m}^3 = {n} atom lattice read back from its own dump differs: '
+                    f'{len(back)} atoms; atom {i}: wrote {[int(j) for j in nl[i]]}, read '
+                    f'{[int(j) for j in back[i]] if i < len(back) else None}', payload)
+
+
+def scale_checks(ctx, rng, tmpdir, broken):
+    for _ in range(ctx.n(2, 12) * (2 if broken else 1)):
+        n, rows = gen_large_rows(rng)
+        check_large_rows(ctx, n, rows, tmpdir)
+        if len(ctx.violations) >= 6:
+            return
+    plans = [(47, (False, False, False), 6, 1)]
+    if ctx.thorough or broken:
+        plans += [(47, (True, True, True), 1, 1), (48, (True, False, True), 20, 10), (50, (False, True, False), 3, 2)]
+    for m, pbc, init, delta in plans:
+        check_lattice(ctx, m, pbc, init, delta, tmpdir)
+        if len(ctx.violations) >= 6:
+            return
+
+
+# ----------------------------------------------------------------------------------------
 # search: the property's clauses on the real code
 # ----------------------------------------------------------------------------------------
 def _search_case(ctx, case, kind, name, full, tmpdir=None):
@@ -1575,7 +1975,8 @@ def search(ctx, broken):
     mult = 3 if broken else 1
     plan = [('dense', gen_dense, ctx.n(40, 1500) * mult), ('shear', gen_shear, ctx.n(600, 12000) * mult),
             ('hunt', gen_hunt, ctx.n(4000, 100000) * mult), ('general', gen_general, ctx.n(250, 8000) * mult),
-            ('grid', gen_grid, ctx.n(250, 8000) * mult), ('edges', gen_edges, ctx.n(100, 3000) * mult)]
+            ('grid', gen_grid, ctx.n(250, 8000) * mult), ('edges', gen_edges, ctx.n(100, 3000) * mult),
+            ('fine', gen_fine, ctx.n(500, 15000) * mult), ('nearcut', gen_nearcut, ctx.n(400, 12000) * mult)]
     with tempfile.TemporaryDirectory(prefix='c03_') as tmpdir:
         import time
         ph = ctx.extra.setdefault('phase_seconds', {})
@@ -1594,6 +1995,9 @@ def search(ctx, broken):
             if len(ctx.violations) >= 6:
                 return
         ph['oracle:sequence'] = round(time.time() - t0, 1)
+        t0 = time.time()
+        scale_checks(ctx, rng, tmpdir, broken)
+        ph['oracle:scale'] = round(time.time() - t0, 1)
     if ctx.thorough:
         _exhaustive_small(ctx)
 
@@ -1623,6 +2027,14 @@ def replay(ctx, payload):
             run_sequence(ctx, random.Random(0), 0, 'oracle', tmpdir, script=r)
             if ctx.driver is not None:
                 run_sequence(ctx, random.Random(0), 0, 'corr', tmpdir, script=r)
+        return
+    if r.get('op') == 'large':
+        with tempfile.TemporaryDirectory(prefix='c03_') as tmpdir:
+            check_large_rows(ctx, r['n'], r['rows'], tmpdir)
+        return
+    if r.get('op') == 'lattice':
+        with tempfile.TemporaryDirectory(prefix='c03_') as tmpdir:
+            check_lattice(ctx, r['m'], r['pbc'], r['init'], r['delta'], tmpdir)
         return
     case = r.get('case')
     if not case:
